@@ -146,11 +146,23 @@ fn cnt<T>(x: T) -> T {
     CALLS.with(|c| c.set(c.get() + 1));
     x
 }
+thread_local! {
+    /// Order-sensitive digest of the Pratt fold callbacks of one operation: which operator was folded
+    /// and the span its callback was given, in the order the callbacks ran — i.e. the shape of the tree.
+    static SHAPE: std::cell::Cell<u64> = const { std::cell::Cell::new(0) };
+}
+#[inline]
+fn fold_seen(op: u8, span: SimpleSpan<usize>) {
+    SHAPE.with(|s| s.set(crate::prng::fold(crate::prng::fold(s.get(), op as u64), ((span.start as u64) << 32) ^ span.end as u64)));
+}
 fn calls_reset() {
     CALLS.with(|c| c.set(0));
+    SHAPE.with(|c| c.set(0));
 }
+/// (closure calls, fold-shape digest folded in): one number to compare with the unrolling
 fn calls_get() -> u64 {
-    CALLS.with(|c| c.get())
+    let shape = SHAPE.with(|c| c.get());
+    CALLS.with(|c| c.get()) ^ shape.rotate_left(20)
 }
 
 /// pad kind with a big frame (at most MAX_HEAVY per body: ~35 KiB per level of recursion stays well
@@ -215,9 +227,18 @@ fn body<'a>(t: Tmpl, pads: &[u8], me: BX<'a>, other: Option<BX<'a>>, second: boo
         Tmpl::PrattGroup => {
             let atom = just(b'x').to((0u64, 0u64)).or(me.delimited_by(just(b'('), just(b')')).map(|(d, m)| cnt((d + 1, m))));
             atom.pratt((
-                prefix(bp(0, 3), just(b'-'), |_, r: O, _| cnt((r.0, r.1 + 1))),
-                infix(right(bp(1, 1)), just(b'^'), |l: O, _, r: O, _| cnt((l.0.max(r.0), l.1 + r.1 + 1))),
-                infix(left(bp(2, 2)), just(b'+'), |l: O, _, r: O, _| cnt((l.0.max(r.0), l.1 + r.1 + 1))),
+                prefix(bp(0, 3), just(b'-'), |_, r: O, e: &mut chumsky::input::MapExtra<'a, '_, In<'a>, Er<'a>>| {
+            fold_seen(1, e.span());
+            cnt((r.0, r.1 + 1))
+        }),
+                infix(right(bp(1, 1)), just(b'^'), |l: O, _, r: O, e: &mut chumsky::input::MapExtra<'a, '_, In<'a>, Er<'a>>| {
+            fold_seen(4, e.span());
+            cnt((l.0.max(r.0), l.1 + r.1 + 1))
+        }),
+                infix(left(bp(2, 2)), just(b'+'), |l: O, _, r: O, e: &mut chumsky::input::MapExtra<'a, '_, In<'a>, Er<'a>>| {
+            fold_seen(3, e.span());
+            cnt((l.0.max(r.0), l.1 + r.1 + 1))
+        }),
             ))
             .boxed()
         }
@@ -271,11 +292,26 @@ fn nested_q<'a>(pads: &[u8], q: BX<'a>, p: BX<'a>) -> BX<'a> {
 fn pratt_mix<'a>(pads: &[u8]) -> BX<'a> {
     let atom = pad(just(b'x').to((0u64, 0u64)).boxed(), pads);
     atom.pratt((
-        prefix(bp(0, 1), just(b'-'), |_, r: O, _| cnt((r.0, r.1 + 1))),
-        prefix(bp(1, 2), just(b'~'), |_, r: O, _| cnt((r.0, r.1 + 1))),
-        infix(left(bp(2, 1)), just(b'+'), |l: O, _, r: O, _| cnt((l.0.max(r.0), l.1 + r.1 + 1))),
-        infix(right(bp(3, 1)), just(b'^'), |l: O, _, r: O, _| cnt((l.0.max(r.0), l.1 + r.1 + 1))),
-        postfix(bp(4, 3), just(b'!'), |l: O, _, _| cnt((l.0, l.1 + 1))),
+        prefix(bp(0, 1), just(b'-'), |_, r: O, e: &mut chumsky::input::MapExtra<'a, '_, In<'a>, Er<'a>>| {
+            fold_seen(1, e.span());
+            cnt((r.0, r.1 + 1))
+        }),
+        prefix(bp(1, 2), just(b'~'), |_, r: O, e: &mut chumsky::input::MapExtra<'a, '_, In<'a>, Er<'a>>| {
+            fold_seen(2, e.span());
+            cnt((r.0, r.1 + 1))
+        }),
+        infix(left(bp(2, 1)), just(b'+'), |l: O, _, r: O, e: &mut chumsky::input::MapExtra<'a, '_, In<'a>, Er<'a>>| {
+            fold_seen(3, e.span());
+            cnt((l.0.max(r.0), l.1 + r.1 + 1))
+        }),
+        infix(right(bp(3, 1)), just(b'^'), |l: O, _, r: O, e: &mut chumsky::input::MapExtra<'a, '_, In<'a>, Er<'a>>| {
+            fold_seen(4, e.span());
+            cnt((l.0.max(r.0), l.1 + r.1 + 1))
+        }),
+        postfix(bp(4, 3), just(b'!'), |l: O, _, e: &mut chumsky::input::MapExtra<'a, '_, In<'a>, Er<'a>>| {
+            fold_seen(5, e.span());
+            cnt((l.0, l.1 + 1))
+        }),
     ))
     .boxed()
 }
@@ -283,9 +319,18 @@ fn pratt_mix<'a>(pads: &[u8]) -> BX<'a> {
 fn pratt_chain<'a>(pads: &[u8]) -> BX<'a> {
     let atom = pad(just(b'x').to((0u64, 0u64)).boxed(), pads);
     atom.pratt((
-        prefix(bp(0, 2), just(b'-'), |_, r: O, _| cnt((r.0, r.1 + 1))),
-        infix(right(bp(1, 1)), just(b'^'), |l: O, _, r: O, _| cnt((l.0.max(r.0), l.1 + r.1 + 1))),
-        postfix(bp(2, 3), just(b'!'), |l: O, _, _| cnt((l.0, l.1 + 1))),
+        prefix(bp(0, 2), just(b'-'), |_, r: O, e: &mut chumsky::input::MapExtra<'a, '_, In<'a>, Er<'a>>| {
+            fold_seen(1, e.span());
+            cnt((r.0, r.1 + 1))
+        }),
+        infix(right(bp(1, 1)), just(b'^'), |l: O, _, r: O, e: &mut chumsky::input::MapExtra<'a, '_, In<'a>, Er<'a>>| {
+            fold_seen(4, e.span());
+            cnt((l.0.max(r.0), l.1 + r.1 + 1))
+        }),
+        postfix(bp(2, 3), just(b'!'), |l: O, _, e: &mut chumsky::input::MapExtra<'a, '_, In<'a>, Er<'a>>| {
+            fold_seen(5, e.span());
+            cnt((l.0, l.1 + 1))
+        }),
     ))
     .boxed()
 }
